@@ -319,7 +319,10 @@ PLANS = {
                     MC("MCCursor_t9", "MCCursor_t9_fixed.cfg", workers=8, quick=False, timeout=7200)]),
     "C06": dict(level="model_checking", assumptions=TRUST + ["values of merge calls / outputs are named (source, position) by exact byte equality with the values the sources hold"],
                 mc=[MC("MCMerger", "MCMerger.cfg", workers=8), MC("MCMerger", "MCMerger_4x3.cfg", workers=8),
-                    MC("MCMerger", "MCMerger_revtie.cfg", workers=8, expect="fail:OutPrefixOk")],
+                    MC("MCMerger", "MCMerger_revtie.cfg", workers=8, expect="fail:OutPrefixOk"),
+                    # liveness: every next() consumes an entry of each popped source; iteration ends and stays ended
+                    MC("MCMerger", "MCMerger_live.cfg", workers=4),
+                    MC("MCMerger", "MCMerger_live_bad.cfg", workers=2, expect="fail:Progress")],
                 extra=[merger_model(400)],
                 gen=[G("merge", 400, 15000, "TraceMerger", "TraceMerger.cfg"),
                      # a key held by sources whose positions exceed 16 bits (65 540 sources)
@@ -345,7 +348,9 @@ PLANS = {
                      G("varint_windows", 2, 8, "TraceVarint", "TraceVarint_C09.cfg")]),
     "C11": dict(level="model_checking", assumptions=TRUST + ["stream equality is judged on (length, two independent 31-bit digests)", "read-side: results under a schedule are validated against the same contract specifications as the whole-buffer runs"],
                 mc=[MC("MCIO", "MCIO_W.cfg", workers=2), MC("MCIO", "MCIO_R.cfg", workers=2),
-                    MC("MCIO", "MCIO_Wbad.cfg", workers=2, expect="fail:CountOk")],
+                    MC("MCIO", "MCIO_Wbad.cfg", workers=2, expect="fail:CountOk"),
+                    # liveness: under a sink / source that keeps making progress every write_all / read_exact returns
+                    MC("MCIO", "MCIO_W_live.cfg", workers=2), MC("MCIO", "MCIO_R_live.cfg", workers=2)],
                 gen=[G("wsched", 120, 4000, "TraceIO", "TraceIO.cfg"),
                      G("roundtrip", 100, 3000, "TraceCursor", "TraceCursor.cfg", extra=["--rsched", "rand3", "--wsched", "rand5"]),
                      G("roundtrip", 60, 1000, "TraceCursor", "TraceCursor.cfg", extra=["--rsched", "one", "--wsched", "lenm1"]),
